@@ -175,8 +175,60 @@ def tlc_model_check(run, module, cfg, workers=8, timeout=600, extra=(), env=None
     return {"generated": gen, "distinct": dist, "out": out}
 
 
-_REJ_RE = re.compile(r'<<"REJECT", (\d+), (-?\d+), "([^"]*)"(?:, (\{.*?\}))?>>', re.S)
-_DONE_RE = re.compile(r'<<"DONE", (\d+), (\d+)>>')
+def tlc_generate(run, module, consts, invariant='Emit', timeout=300, label='gen'):
+    """Runs TLC on a behaviour-generation spec; returns the JSON values it printed (one per behaviour)."""
+    cfg = os.path.join(run.work, '%s-%s-%d.cfg' % (module, label, len(run.phases)))
+    with open(cfg, 'w') as f:
+        f.write('SPECIFICATION Spec\nCONSTANTS\n')
+        for k, v in consts.items():
+            f.write('  %s = %s\n' % (k, json.dumps(v) if isinstance(v, str) else v))
+        f.write('INVARIANT %s\nCHECK_DEADLOCK FALSE\n' % invariant)
+    metadir = os.path.join(run.work, 'gmeta-%d' % len(run.phases))
+    cmd = _tlc_cmd(module + '.tla', cfg, metadir, 1, xss='64m', xmx='4g')
+    t0 = time.time()
+    try:
+        r = subprocess.run(cmd, cwd=SPEC, capture_output=True, text=True, timeout=timeout)
+    except subprocess.TimeoutExpired:
+        raise MachineryError('TLC timed out generating behaviours from ' + module)
+    shutil.rmtree(metadir, ignore_errors=True)
+    m = None
+    for m in _GEN_RE.finditer(r.stdout):
+        pass
+    if r.returncode != 0 or m is None:
+        raise MachineryError('TLC failed generating behaviours from %s:\n%s' % (module, r.stdout[-2000:]))
+    out = []
+    for ln in r.stdout.split('\n'):
+        if ln.startswith('"') and ln.endswith('"'):
+            try:
+                out.append(json.loads(json.loads(ln)))
+            except Exception:
+                pass
+    run.mc_states += int(m.group(2))
+    run.mc_transitions += int(m.group(1))
+    run.phases.append({"phase": "behaviour-generation", "module": module, "consts": consts, "behaviours": len(out),
+                       "states_generated": int(m.group(1)), "distinct_states": int(m.group(2)),
+                       "wall_s": round(time.time() - t0, 1)})
+    run.note('TLC generated %d behaviours from %s %s (%.1fs)' % (len(out), module, consts, time.time() - t0))
+    return out
+
+
+def _parse_trace_output(out):
+    """Returns (done record or None, [reject records]) from the PrintT lines of a trace specification."""
+    done, rej = None, []
+    for ln in out.split('\n'):
+        if ln.startswith('"REJECT ') or ln.startswith('"DONE '):
+            try:
+                text = json.loads(ln)
+            except Exception:
+                continue
+            kind, _, payload = text.partition(' ')
+            rec = json.loads(payload)
+            if kind == 'DONE':
+                done = rec
+            else:
+                rej.append(rec)
+    return done, rej
+
 
 
 def _validate_chunk(args):
@@ -196,9 +248,9 @@ def _validate_chunk(args):
             continue
         shutil.rmtree(metadir, ignore_errors=True)
         out = r.stdout
-        done = _DONE_RE.search(out)
-        if done and int(done.group(1)) == nlines:
-            rej = [(int(m.group(1)), int(m.group(2)), m.group(3), m.group(4)) for m in _REJ_RE.finditer(out)]
+        done, rejs = _parse_trace_output(out)
+        if done and int(done["n"]) == nlines and int(done["nrej"]) == len(rejs):
+            rej = [(int(x["l"]), int(x["idx"]), x["e"], x.get("why") or []) for x in rejs]
             gm = None
             for gm in _GEN_RE.finditer(out):
                 pass
@@ -264,7 +316,7 @@ def tlc_validate(run, module, cfg, trace_path, env, nchunks=16, timeout=900):
         nev += n
         for (l, idx, kind, why) in res['rej']:
             ev = json.loads(lines[l - 1])
-            tags = sorted(set(re.findall(r'"([^"]*)"', why or '')))
+            tags = sorted(set(why if isinstance(why, list) else [str(why)]))
             rejected.append({"event": ev, "why": tags, "l": l})
         os.unlink(p)
     run.traces += len(chunks)
